@@ -453,6 +453,8 @@ def ctx_class(rec):
 
 def ctx_str(role, block):
     """Signature text of a context: the role in the parent node; for statements also the kind of block they sit in."""
+    if block == "bare-match-arm":
+        return "part of a brace-less match arm"
     return f"{role} of {block}" if role in ("statement", "block-last", "statements") else role
 
 
